@@ -124,7 +124,7 @@ theorem TV.extend {L : List (Acct × Node)} {V : View} (h : TV ex accts groups L
   exact { h with
     neq := key h.neq hneq
     cons := key h.cons hcons
-    rcons := key h.rcons hrcons
+    rcons := key h.rcons (fun r hr => by unfold rcRel; rw [hrcons r hr]; split <;> simp)
     kept := key h.kept hkept
     ret3 := key h.ret3 hret3 }
 
